@@ -57,12 +57,27 @@ type registerRule struct {
 	R        *BusRoles
 	cycleFn  *ssa.Function
 	sawCycle bool
+	pc       []string // canonical names of register's parameters
 }
 
 // sigma: 5 guard states (u unknown, a accepted, r rejected) + lock (n/r/w) + cycle check
 // done in the current write-locked region (n/y) + inserted (n/y) + last result class
-func (r *registerRule) Inline(fn *ssa.Function) bool { return false }
-func (r *registerRule) PredOK(string) bool            { return false }
+// In-package helpers (argument validation moved out of register) are inlined; the cycle
+// query stays an opaque event.
+func (r *registerRule) Inline(fn *ssa.Function) bool {
+	return PkgOf(fn) == PkgBus && fn != r.cycleFn && fn.Parent() == nil
+}
+func (r *registerRule) PredOK(k string) bool {
+	return strings.HasPrefix(k, "v:") || strings.HasPrefix(k, "(nil==v:")
+}
+
+func (r *registerRule) OnEnter(e *Engine, st *State, fc *FrameCtx) {
+	if fc.parent == nil && r.pc == nil {
+		for _, p := range fc.fn.Params {
+			r.pc = append(r.pc, e.CanonS(fc, p))
+		}
+	}
+}
 
 const (
 	gFromEmpty = iota
@@ -76,11 +91,11 @@ const (
 	gResult
 )
 
-func (r *registerRule) guardOf(f *ssa.Function, cond ssa.Value) (int, bool, bool) {
+func (r *registerRule) guardOf(e *Engine, fc *FrameCtx, cond ssa.Value) (int, bool, bool) {
 	c, pol := condStrip(cond)
 	isParam := func(v ssa.Value, i int) bool {
-		p, ok := stripConv(v).(*ssa.Parameter)
-		return ok && p.Parent() == f && i < len(f.Params) && f.Params[i] == p
+		// a parameter of register, possibly seen through the parameters of an inlined helper
+		return i < len(r.pc) && e.CanonS(fc, stripConv(v)) == r.pc[i]
 	}
 	isEmpty := func(v ssa.Value) bool {
 		k, ok := v.(*ssa.Const)
@@ -110,7 +125,7 @@ func (r *registerRule) guardOf(f *ssa.Function, cond ssa.Value) (int, bool, bool
 }
 
 func (r *registerRule) OnBranch(e *Engine, st *State, fc *FrameCtx, in *ssa.If, taken bool) {
-	g, rejectOnTrue, ok := r.guardOf(fc.fn, in.Cond)
+	g, rejectOnTrue, ok := r.guardOf(e, fc, in.Cond)
 	if !ok {
 		return
 	}
@@ -148,18 +163,18 @@ func (r *registerRule) OnInstr(e *Engine, st *State, fc *FrameCtx, in ssa.Instru
 			b[gInserted] = 'y'
 		}
 	case *ssa.Store:
-		if al, ok := x.Addr.(*ssa.Alloc); ok && typeName(al.Type()) == "error" {
-			b[gResult] = classifyErr(e, x.Val)
+		if al, ok := x.Addr.(*ssa.Alloc); ok && typeName(al.Type()) == "error" && fc.parent == nil {
+			b[gResult] = classifyErrAt(e, st, fc, x.Val)
 		}
 	case *ssa.Return:
-		if len(x.Results) == 1 {
+		if len(x.Results) == 1 && fc.parent == nil {
 			v := x.Results[0]
 			if ld, ok := v.(*ssa.UnOp); ok && ld.Op == token.MUL {
 				if _, ok := ld.X.(*ssa.Alloc); !ok {
 					b[gResult] = '?'
 				}
 			} else {
-				b[gResult] = classifyErr(e, v)
+				b[gResult] = classifyErrAt(e, st, fc, v)
 			}
 		}
 	case ssa.CallInstruction:
@@ -186,11 +201,8 @@ func (r *registerRule) OnInstr(e *Engine, st *State, fc *FrameCtx, in ssa.Instru
 				b[gRegion] = 'y'
 			}
 			// arguments: (from, to) of this registration
-			if len(c.Args) == 3 {
-				f := fc.fn
-				p1, ok1 := stripConv(c.Args[1]).(*ssa.Parameter)
-				p2, ok2 := stripConv(c.Args[2]).(*ssa.Parameter)
-				if !(ok1 && ok2 && p1 == f.Params[1] && p2 == f.Params[2]) {
+			if len(c.Args) == 3 && len(r.pc) > 2 {
+				if !(e.CanonS(fc, stripConv(c.Args[1])) == r.pc[1] && e.CanonS(fc, stripConv(c.Args[2])) == r.pc[2]) {
 					e.Report(st, in.Pos(), "register/cycle-query-args", "the reachability query is not asked about (source, target) of this registration")
 				}
 			}
@@ -384,10 +396,12 @@ func checkCycleSearch(c *Ctx, p *Prog, R *BusRoles, rule string) {
 		if f.Parent() != nil || !readsUpMapDirect(f, R) {
 			continue
 		}
-		for _, b := range f.Blocks {
-			for _, in := range b.Instrs {
-				if call, ok := in.(*ssa.Call); ok && call.Common().StaticCallee() == f {
-					dfs = f
+		for _, g := range append([]*ssa.Function{f}, f.AnonFuncs...) {
+			for _, b := range g.Blocks {
+				for _, in := range b.Instrs {
+					if call, ok := in.(*ssa.Call); ok && call.Common().StaticCallee() == f {
+						dfs = f
+					}
 				}
 			}
 		}
@@ -403,12 +417,32 @@ func checkCycleSearch(c *Ctx, p *Prog, R *BusRoles, rule string) {
 		return
 	}
 	cur, target, visited := dfs.Params[1], dfs.Params[2], dfs.Params[3]
+	// a parameter captured by a closure lives in a cell: reads of the cell are the parameter
+	cells := indexCells(p)
+	pv := func(v ssa.Value) ssa.Value {
+		v = stripConv(v)
+		var al *ssa.Alloc
+		switch x := cellOf(v).(type) {
+		case *ssa.FreeVar:
+			al = cells.freeAlloc[x]
+		case *ssa.Alloc:
+			al = x
+		}
+		if al != nil {
+			if ss := cells.stores[al]; len(ss) == 1 {
+				if pr, ok := stripConv(ss[0]).(*ssa.Parameter); ok {
+					return pr
+				}
+			}
+		}
+		return v
+	}
 	// the loop over the successors of current
 	var lookup *ssa.Lookup
 	for _, b := range dfs.Blocks {
 		for _, in := range b.Instrs {
 			if lk, ok := in.(*ssa.Lookup); ok {
-				if _, ok := R.isUpMapLoad(lk.X); ok && stripConv(lk.Index) == ssa.Value(cur) {
+				if _, ok := R.isUpMapLoad(lk.X); ok && pv(lk.Index) == ssa.Value(cur) {
 					lookup = lk
 				}
 			}
@@ -417,6 +451,103 @@ func checkCycleSearch(c *Ctx, p *Prog, R *BusRoles, rule string) {
 	if lookup == nil {
 		c.Violate(rule, name+"/successors-of-current", pos, "the search does not enumerate the upcasters registered for the current type", nil)
 		return
+	}
+	entryTests := func(before *ssa.BasicBlock, inLoop map[*ssa.BasicBlock]bool) bool {
+		good := true
+		sawTarget, sawVisitedTest, sawMark := false, false, false
+		for _, b := range dfs.Blocks {
+			if inLoop[b] {
+				continue
+			}
+			for _, in := range b.Instrs {
+				switch x := in.(type) {
+				case *ssa.BinOp:
+					if x.Op == token.EQL && ((pv(x.X) == ssa.Value(cur) && pv(x.Y) == ssa.Value(target)) || (pv(x.X) == ssa.Value(target) && pv(x.Y) == ssa.Value(cur))) {
+						sawTarget = true
+					}
+				case *ssa.Lookup:
+					if pv(x.X) == ssa.Value(visited) && pv(x.Index) == ssa.Value(cur) {
+						sawVisitedTest = true
+					}
+				case *ssa.MapUpdate:
+					if pv(x.Map) == ssa.Value(visited) && pv(x.Key) == ssa.Value(cur) {
+						sawMark = true
+						if !(b == before || b.Dominates(before)) {
+							good = false
+							c.Violate(rule, name+"/mark-before-recursing", p.Pos(in.Pos()), "the current type is not marked visited before its successors are explored", nil)
+						}
+					}
+				}
+			}
+		}
+		if !sawTarget || !sawVisitedTest || !sawMark {
+			good = false
+			c.Violate(rule, name+"/target-and-visited-tests", pos, fmt.Sprintf("the search lacks its entry tests (current==target: %v, visited[current] test: %v, mark: %v)", sawTarget, sawVisitedTest, sawMark), nil)
+		}
+		return good
+	}
+	recArgsOK := func(recCall *ssa.Call) bool {
+		good := true
+		if len(recCall.Common().Args) == 4 {
+			a := recCall.Common().Args
+			if tn, fld, _, ok := fieldLoad(a[1]); !(ok && tn == "Upcaster" && fld == "ToType") {
+				good = false
+				c.Violate(rule, name+"/recurse-on-successor-target", p.Pos(recCall.Pos()), "the search does not recurse on the successor's target type", nil)
+			}
+			if pv(a[2]) != ssa.Value(target) || pv(a[3]) != ssa.Value(visited) {
+				good = false
+				c.Violate(rule, name+"/recurse-same-target-and-visited", p.Pos(recCall.Pos()), "the recursion changes the target or uses a different visited set", nil)
+			}
+		}
+		return good
+	}
+	// idiom: `return slices.ContainsFunc(successors, func(u) bool { return search(u.ToType, target, visited) })`
+	for _, b := range dfs.Blocks {
+		for _, in := range b.Instrs {
+			call, ok := in.(*ssa.Call)
+			if !ok || !strings.HasPrefix(calleeName(call.Common()), "slices.ContainsFunc") || len(call.Common().Args) != 2 {
+				continue
+			}
+			mc, isMC := stripConv(call.Common().Args[1]).(*ssa.MakeClosure)
+			if stripConv(call.Common().Args[0]) != ssa.Value(lookup) || !isMC {
+				continue
+			}
+			cl := mc.Fn.(*ssa.Function)
+			good := true
+			// the closure's only result is the recursive answer for its element
+			var rec *ssa.Call
+			for _, ret := range returnsOf(cl) {
+				rc, ok := stripConv(ret.Results[0]).(*ssa.Call)
+				if !ok || rc.Common().StaticCallee() != dfs {
+					good = false
+					c.Violate(rule, name+"/all-successors-explored", p.Pos(ret.Pos()), "the predicate given to ContainsFunc does not return the recursive answer for every successor", nil)
+					continue
+				}
+				rec = rc
+				if _, _, base, ok := fieldLoad(rc.Common().Args[1]); !ok || pv(base) != ssa.Value(cl.Params[0]) {
+					if al, isAl := stripConv(base).(*ssa.Alloc); !isAl || len(cells.stores[al]) != 1 || stripConv(cells.stores[al][0]) != ssa.Value(cl.Params[0]) {
+						good = false
+						c.Violate(rule, name+"/recurse-on-successor-target", p.Pos(rc.Pos()), "the predicate does not recurse on its own element's target type", nil)
+					}
+				}
+			}
+			if rec == nil {
+				continue
+			}
+			good = recArgsOK(rec) && good
+			// the answer is ContainsFunc's answer
+			for _, ref := range *call.Referrers() {
+				if _, isRet := ref.(*ssa.Return); !isRet {
+					good = false
+					c.Violate(rule, name+"/all-successors-explored", p.Pos(call.Pos()), "the result of ContainsFunc is not returned as the search's answer", nil)
+				}
+			}
+			good = entryTests(b, nil) && good
+			if good {
+				c.Discharge(rule, name+"/guarded-recursion-over-all-successors", pos, "current==target ⇒ true; visited test-and-mark before recursing; slices.ContainsFunc over all successors with the recursive answer as predicate")
+			}
+			return
+		}
 	}
 	// loop header: the block that indexes the lookup
 	li := loopsOf(dfs)
@@ -437,17 +568,7 @@ func checkCycleSearch(c *Ctx, p *Prog, R *BusRoles, rule string) {
 	good := true
 	body := li.body[header]
 	// (a) recursion argument: successor's target type, same target, same visited set
-	if len(recCall.Common().Args) == 4 {
-		a := recCall.Common().Args
-		if tn, fld, _, ok := fieldLoad(a[1]); !(ok && tn == "Upcaster" && fld == "ToType") {
-			good = false
-			c.Violate(rule, name+"/recurse-on-successor-target", p.Pos(recCall.Pos()), "the search does not recurse on the successor's target type", nil)
-		}
-		if stripConv(a[2]) != ssa.Value(target) || stripConv(a[3]) != ssa.Value(visited) {
-			good = false
-			c.Violate(rule, name+"/recurse-same-target-and-visited", p.Pos(recCall.Pos()), "the recursion changes the target or uses a different visited set", nil)
-		}
-	}
+	good = recArgsOK(recCall) && good
 	// (b) inside the loop the only way out is `return true` after a positive recursive answer
 	for b := range body {
 		last := b.Instrs[len(b.Instrs)-1]
@@ -488,36 +609,7 @@ func checkCycleSearch(c *Ctx, p *Prog, R *BusRoles, rule string) {
 		}
 	}
 	// (c) target test and visited test-and-mark before the loop
-	sawTarget, sawVisitedTest, sawMark := false, false, false
-	for _, b := range dfs.Blocks {
-		if body[b] {
-			continue
-		}
-		for _, in := range b.Instrs {
-			switch x := in.(type) {
-			case *ssa.BinOp:
-				if x.Op == token.EQL && ((stripConv(x.X) == ssa.Value(cur) && stripConv(x.Y) == ssa.Value(target)) || (stripConv(x.X) == ssa.Value(target) && stripConv(x.Y) == ssa.Value(cur))) {
-					sawTarget = true
-				}
-			case *ssa.Lookup:
-				if stripConv(x.X) == ssa.Value(visited) && stripConv(x.Index) == ssa.Value(cur) {
-					sawVisitedTest = true
-				}
-			case *ssa.MapUpdate:
-				if stripConv(x.Map) == ssa.Value(visited) && stripConv(x.Key) == ssa.Value(cur) {
-					sawMark = true
-					if !b.Dominates(header) {
-						good = false
-						c.Violate(rule, name+"/mark-before-recursing", p.Pos(in.Pos()), "the current type is not marked visited before its successors are explored", nil)
-					}
-				}
-			}
-		}
-	}
-	if !sawTarget || !sawVisitedTest || !sawMark {
-		good = false
-		c.Violate(rule, name+"/target-and-visited-tests", pos, fmt.Sprintf("the search lacks its entry tests (current==target: %v, visited[current] test: %v, mark: %v)", sawTarget, sawVisitedTest, sawMark), nil)
-	}
+	good = entryTests(header, body) && good
 	if good {
 		c.Discharge(rule, name+"/guarded-recursion-over-all-successors", pos, "current==target ⇒ true; visited test-and-mark before recursing; every successor explored; true propagates")
 	}
@@ -712,12 +804,36 @@ func checkApply(c *Ctx, p *Prog, R *BusRoles, r5, r17 string, want map[string]bo
 	}
 	if want["R3"] {
 		// error handler exactly once on the failing-step path with (current type, current data, err)
-		var hcalls []*ssa.Call
+		// (the call may sit in an in-package helper called from apply: its parameters are
+		// then read through the helper's call site)
+		type hsite struct {
+			h    *ssa.Call // the dynamic call of the handler
+			site *ssa.Call // apply's call of the helper containing it (nil: in apply itself)
+		}
+		var hcalls []hsite
+		isHandlerCall := func(in ssa.Instruction) (*ssa.Call, bool) {
+			call, ok := in.(*ssa.Call)
+			if !ok || !isDynamicCall(call.Common()) {
+				return nil, false
+			}
+			tn, fld, _, ok := fieldLoad(call.Common().Value)
+			return call, ok && tn == R.UpRegT.Obj().Name() && fld == R.UpErrH
+		}
 		for _, b := range f.Blocks {
 			for _, in := range b.Instrs {
-				if call, ok := in.(*ssa.Call); ok && isDynamicCall(call.Common()) {
-					if tn, fld, _, ok := fieldLoad(call.Common().Value); ok && tn == R.UpRegT.Obj().Name() && fld == R.UpErrH {
-						hcalls = append(hcalls, call)
+				if call, ok := isHandlerCall(in); ok {
+					hcalls = append(hcalls, hsite{call, nil})
+					continue
+				}
+				if site, ok := in.(*ssa.Call); ok {
+					if sc := site.Common().StaticCallee(); sc != nil && PkgOf(sc) == PkgBus && sc != f {
+						for _, hb := range sc.Blocks {
+							for _, hin := range hb.Instrs {
+								if call, ok := isHandlerCall(hin); ok {
+									hcalls = append(hcalls, hsite{call, site})
+								}
+							}
+						}
 					}
 				}
 			}
@@ -725,7 +841,18 @@ func checkApply(c *Ctx, p *Prog, R *BusRoles, r5, r17 string, want map[string]bo
 		if len(hcalls) != 1 {
 			c.Violate(r17, name+"/error-handler/once", pos, fmt.Sprintf("apply has %d call sites of the upcast error handler (want one, on the failing-step path)", len(hcalls)), nil)
 		} else {
-			h := hcalls[0]
+			h, site := hcalls[0].h, hcalls[0].site
+			inApply := func(v ssa.Value) ssa.Value {
+				v = stripConv(v)
+				if pr, ok := v.(*ssa.Parameter); ok && site != nil {
+					for i, q := range pr.Parent().Params {
+						if q == pr && i < len(site.Common().Args) {
+							return stripConv(site.Common().Args[i])
+						}
+					}
+				}
+				return v
+			}
 			a := h.Common().Args
 			var errEx ssa.Value
 			for _, ref := range *upCall.Referrers() {
@@ -733,14 +860,20 @@ func checkApply(c *Ctx, p *Prog, R *BusRoles, r5, r17 string, want map[string]bo
 					errEx = ex
 				}
 			}
-			okArgs := len(a) == 3 && curType != nil && curData != nil && stripConv(a[0]) == ssa.Value(curType) && stripConv(a[1]) == ssa.Value(curData) && errEx != nil && stripConv(a[2]) == errEx
+			okArgs := len(a) == 3 && curType != nil && curData != nil && inApply(a[0]) == ssa.Value(curType) && inApply(a[1]) == ssa.Value(curData) && errEx != nil && inApply(a[2]) == errEx
 			c.Check(okArgs, r17, name+"/error-handler/args", p.Pos(h.Pos()), "called with (current type, current data, the step's error)", "the upcast error handler is not given (current type, current data, the failing step's error)")
 			// on the err != nil side only, not in a nested loop, followed by an error return
 			cond, onTrue := guardingCond(h.Block())
 			okSide := false
 			if x, _, ok := nilTest(cond); ok && onTrue {
 				if tn, fld, _, ok := fieldLoad(x); ok && tn == R.UpRegT.Obj().Name() && fld == R.UpErrH {
-					c2, onTrue2 := guardingCond(h.Block().Preds[0])
+					var c2 ssa.Value
+					var onTrue2 bool
+					if site != nil {
+						c2, onTrue2 = guardingCond(site.Block())
+					} else {
+						c2, onTrue2 = guardingCond(h.Block().Preds[0])
+					}
 					if y, nonNil2, ok := nilTest(c2); ok && stripConv(y) == errEx && onTrue2 == nonNil2 {
 						okSide = true
 					}
